@@ -118,3 +118,7 @@ UNITS += _ctx_units("C05")
 
 from contracts.share import carried as _carried  # noqa: E402
 UNITS += _carried("C05")
+
+# a --config file takes effect like the same settings given any other way: it is parsed without settling on a subcommand (the command line may name another one)
+from contracts.share import shared as _c05_shared  # noqa: E402
+UNITS += [u for u in _c05_shared("C05", "contracts.c04", "ActionConfigFile.apply_config") if not u.label]
